@@ -107,7 +107,7 @@ Proof.
   assert (Hc : nodupb addr_eqb (map oa_client (listing_of s')) = true).
   { rewrite listing_of_map, map_map. cbn [obs_of oa_client]. apply (nodupb_NoDup addr_eqb addr_eqb_eq). exact Hnd'. }
   rewrite Hc. cbn [andb].
-  destruct e as [src tid c r unk|src p d|src n d|relay from d|dt|relay|csrc|].
+  destruct e as [src tid c r unk|src p d|src n d|relay from d|dt|relay|csrc| |].
   - (* a request *)
     destruct (req_locality _ _ _ _ _ _ _ _ _ Hs) as [Ho _]. rewrite (others_perm _ _ _ Hnd Hnd' Ho). cbn [andb].
     destruct (req_shape _ _ _ _ _ _ _ _ _ Hs) as (evs & tail & Eacts & Hlife & Htail).
@@ -147,6 +147,7 @@ Proof.
       apply (others_perm (a_client a) s (set_allocs s (remove_alloc (a_client a) (allocs s))) Hnd Hnd'). apply others_same_remove.
     + cbn [forallb andb]. apply mset_eqb_refl.
   - cbn [step] in Hs. apply is_life_bool. eapply h_srv_close_life; eauto.
+  - cbn [step] in Hs. inversion Hs; subst. apply mset_eqb_refl.
 Qed.
 
 (* for every configuration and every history: at most one allocation per 5-tuple after every step; a request, Send
@@ -168,7 +169,7 @@ Proof.
   intros Hw Hinv Hr Hs. unfold chk_C05_step.
   rewrite (chk_C01_step_model _ _ _ _ _ Hw Hinv Hr Hs), (chk_C02_step_model _ _ _ _ _ Hinv Hs). cbn [andb os_ev os_acts].
   rewrite (chandata_out_valid _ _ _ _ _ Hinv Hs), andb_true_r.
-  destruct e as [? ? ? ? ?|? ? ?|? ? ?|relay from d|?|?|?|]; try reflexivity.
+  destruct e as [? ? ? ? ?|? ? ?|? ? ?|relay from d|?|?|?| |]; try reflexivity.
   destruct (N.ltb_spec rtp_mtu (lenN d)); [|reflexivity].
   cbn [step] in Hs. apply h_peer_spec in Hs as [_ [->|(a & _ & _ & Hle & _)]]; [reflexivity|lia].
 Qed.
@@ -187,7 +188,7 @@ Proof.
   assert (Old : In (a_client a') (map a_client (allocs s)) -> False) by (apply find_alloc_none; exact Hnone).
   assert (Sub : (forall x, In x (map a_client (allocs s')) -> In x (map a_client (allocs s))) -> False).
   { intros H. apply Old. apply H. apply in_map. exact Hin. }
-  destruct e as [src tid c r unk|src p d|src n d|relay from d|dt|relay|csrc|]; cbn [step] in Hs.
+  destruct e as [src tid c r unk|src p d|src n d|relay from d|dt|relay|csrc| |]; cbn [step] in Hs.
   - destruct unk; [inversion Hs; subst; exfalso; apply Sub; auto|].
     destruct r as [tr lt fam df rp ep rt mt|lt fam|peers|n p|]; try (inversion Hs; subst; exfalso; apply Sub; auto; fail);
       destruct (authenticate cfg s c) as [uid|code ch]; try (inversion Hs; subst; exfalso; apply Sub; auto; fail).
@@ -214,6 +215,7 @@ Proof.
   - exfalso. apply Sub. unfold h_ctl_close in Hs. destruct (find_alloc csrc (allocs s)); inversion Hs; subst; auto.
     cbn [allocs set_allocs]. intros x Hx. apply remove_alloc_clients_incl in Hx. exact Hx.
   - inversion Hs; subst. destruct Hin.
+  - inversion Hs; subst. exfalso; apply Sub; auto.
 Qed.
 
 Lemma existsb_filter_addr c (P : addr -> bool) l : P c = true -> existsb (addr_eqb c) (filter P l) = false -> existsb (addr_eqb c) l = false.
@@ -247,7 +249,7 @@ Section C05.
     pose proof Hinv as [Hnd _]. pose proof (inv_step _ _ _ _ _ Hinv Hs) as Hinv'.
     apply andb_true_iff. split.
     - (* this step forwards what it must *)
-      destruct e as [? ? ? ? ?|src peer data|src n d|relay from d|?|?|?|]; try reflexivity.
+      destruct e as [? ? ? ? ?|src peer data|src n d|relay from d|?|?|?| |]; try reflexivity.
       + destruct peer as [[p|]|]; try reflexivity. destruct data as [d|]; try reflexivity.
         rewrite listing_of_map, find_oalloc_listing. destruct (find_alloc src (allocs s)) as [a|] eqn:Hf; [|reflexivity].
         cbn [option_map]. destruct (has_perm (ip p) (obs_of a) && negb (existsb (addr_eqb src) tcp) && (send_wire_len p d <? cfg_mtu cfg)%N) eqn:C; [|reflexivity].
@@ -287,7 +289,7 @@ Section C05.
       assert (Hex1 : existsb (addr_eqb (a_client a')) tcp1 = false).
       { apply (existsb_filter_addr (a_client a') (fun c => match find_oalloc c (listing_of s') with Some _ => true | None => false end) tcp1 Hp' Hex). }
       assert (Hex0 : existsb (addr_eqb (a_client a')) tcp = false).
-      { unfold tcp1 in Hex1. destruct e as [src tid c rq unk|? ? ?|? ? ?|? ? ?|?|?|?|]; try exact Hex1.
+      { unfold tcp1 in Hex1. destruct e as [src tid c rq unk|? ? ?|? ? ?|? ? ?|?|?|?| |]; try exact Hex1.
         destruct rq as [tr ? ? ? ? ? ? ?|? ?|?|? ?|]; try exact Hex1. destruct tr as [| |v]; try exact Hex1.
         destruct v as [|v]; try exact Hex1. repeat (destruct v as [v|v|]; try exact Hex1).
         destruct (success_of MAllocate acts); [|exact Hex1]. destruct (find_oalloc src (listing_of s)); [exact Hex1|].
@@ -322,7 +324,7 @@ Proof. intros Hn He. unfold authenticate, nonce_valid, cur_minute. rewrite Hn, H
 
 Lemma epoch_step cfg s e s' acts : step cfg s e = (s', acts) -> epoch_min s' = epoch_min s.
 Proof.
-  intros H. destruct e as [src tid c r unk|src p d|src n d|relay from d|dt|relay|csrc|].
+  intros H. destruct e as [src tid c r unk|src p d|src n d|relay from d|dt|relay|csrc| |].
   - cbn [step] in H. destruct unk; [inversion H; reflexivity|].
     destruct r as [tr lt fam df rp ep rt mt|lt fam|peers|n p|]; try (inversion H; reflexivity);
       destruct (authenticate cfg s c); try (inversion H; reflexivity).
@@ -336,6 +338,7 @@ Proof.
   - cbn [step] in H. unfold h_tick in H. destruct (tick_allocs _ _). inversion H; reflexivity.
   - cbn [step] in H. unfold h_relay_err in H. destruct (find_relay relay (allocs s)); inversion H; reflexivity.
   - cbn [step] in H. unfold h_ctl_close in H. destruct (find_alloc csrc (allocs s)); inversion H; reflexivity.
+  - cbn [step] in H. inversion H; reflexivity.
   - cbn [step] in H. inversion H; reflexivity.
 Qed.
 
@@ -459,7 +462,7 @@ Proof.
              osem (close_events a ++ l1) (umap s) x = umap (set_allocs s (remove_alloc (a_client a) (allocs s))) x).
   { intros a l1 Ha Hl. rewrite osem_app, (osem_noalloc _ Hl), osem_close. unfold umap. cbn [allocs set_allocs].
     rewrite (find_alloc_remove _ _ x Hnd), (addr_eqb_sym x). destruct (addr_eqb (a_client a) x); reflexivity. }
-  destruct e as [src tid c r unk|src p d|src n d|relay from d|dt|relay|csrc|]; cbn [step] in Hs.
+  destruct e as [src tid c r unk|src p d|src n d|relay from d|dt|relay|csrc| |]; cbn [step] in Hs.
   - destruct unk; [inversion Hs; subst; apply Same; [reflexivity|repeat constructor]|].
     destruct r as [tr lt fam df rp ep rt mt|lt fam|peers|n p|]; try (inversion Hs; subst; apply Same; [reflexivity|repeat constructor]; fail);
       destruct (authenticate cfg s c) as [uid|code ch]; try (inversion Hs; subst; apply Same; [reflexivity|repeat constructor]; fail).
@@ -509,6 +512,7 @@ Proof.
     assert (N1 : find_alloc x (allocs s) = None).
     { apply find_alloc_none. intros Hin. apply Bool.not_true_iff_false in E. apply E. apply existsb_exists. exists x. split; [exact Hin|apply addr_eqb_refl]. }
     rewrite N1. reflexivity.
+  - inversion Hs; subst. apply Same; [reflexivity|constructor].
 Qed.
 
 Lemma chk_C03_model cfg h : forall s ow, inv cfg s -> own_inv ow s ->
@@ -519,7 +523,7 @@ Proof.
   rewrite <- (now_step _ _ _ _ _ Hs).
   apply andb_true_iff. split.
   2:{ rewrite <- (epoch_step _ _ _ _ _ Hs). apply IH; [eapply inv_step; eauto|]. intros c. rewrite (owners_update_sem acts ow (umap s) Ho). eapply umap_step; eauto. }
-  destruct e as [src tid c rq unk|? ? ?|? ? ?|? ? ?|?|?|?|]; try reflexivity.
+  destruct e as [src tid c rq unk|? ? ?|? ? ?|? ? ?|?|?|?| |]; try reflexivity.
   destruct unk; [reflexivity|]. destruct rq as [tr lt fam df rp ep rt mt|lt fam|peers|n p|] eqn:Erq; try reflexivity.
   all: assert (Hn : now s' = now s) by (rewrite (now_step _ _ _ _ _ Hs); cbn [ev_dt]; lia).
   all: rewrite (authenticate_indep cfg s {| now := now s'; epoch_min := epoch_min s; allocs := []; rsvs := [] |} c Hn eq_refl).
